@@ -20,7 +20,8 @@
    In particular the depth of the nesting recursion is bounded only by what the decompressor
    returns: a compressed section whose payload decodes to (a section containing) itself would
    recurse without bound in the model ([Fuel] for every [d]) and in the Go code alike. *)
-From Fiano Require Import Base.Bytes Model.Ffs Proofs.FfsParseProofs Proofs.FfsExamples.
+From Fiano Require Import Base.Bytes Model.Ffs Proofs.FfsParseProofs Proofs.FfsAsmTotalProofs
+  Proofs.FfsExamples.
 Open Scope Z_scope.
 
 (* no parser panics; in particular the local loop fuels (sites 901-904) never run out, i.e. every
@@ -58,6 +59,34 @@ Theorem C05_ok_stable_in_depth : forall dec u2s nvar d d' b r, (d <= d')%nat ->
 Proof. exact region_ok_stable. Qed.
 Print Assumptions C05_ok_stable_in_depth.
 
+(* with decompression disabled (uefi.DisableDecompression, or no section that decodes) the depth
+   [length + 3] always suffices: the parser returns a tree or an error.  With a decompressor the
+   depth needed is bounded only by what the decompressor returns (see the header comment). *)
+Theorem C05_total_without_decompression : forall dec u2s nvar, (forall k p, dec k p = None) ->
+  forall d buf, bytes_ok buf = true -> zlen buf + 2 < Z.of_nat d ->
+  (exists r, parse_region dec u2s nvar d buf = Ok r) \/
+  (exists e, parse_region dec u2s nvar d buf = Err e).
+Proof. exact region_total_without_decompression. Qed.
+Print Assumptions C05_total_without_decompression.
+
+(* Assemble.Visit applied to a tree the parser accepted never panics: the sites 201 (zero-length
+   file buffer, log.Fatalf), 202-207 (slices and indices of the volume case), 301 (GUID-defined
+   section without its header) and 401 (copy beyond the region buffer) are unreachable; for every
+   codec oracle [enc] and UCS-2 encoder [s2u] *)
+Theorem C05_asm_no_panic_on_parsed : forall dec enc u2s s2u nvar, dec_ok dec ->
+  forall d buf elems pol, bytes_ok buf = true ->
+  parse_region dec u2s nvar d buf = Ok (elems, pol) ->
+  is_panic (asm_bios enc s2u elems (zlen buf) (pol, false)) = false.
+Proof. exact asm_no_panic_on_parsed. Qed.
+Print Assumptions C05_asm_no_panic_on_parsed.
+
+(* parse followed by save, the whole pipeline *)
+Theorem C05_save_region_no_panic : forall dec enc u2s s2u nvar, dec_ok dec ->
+  forall d buf, bytes_ok buf = true ->
+  is_panic (save_region dec enc u2s s2u nvar d buf) = false.
+Proof. exact save_region_no_panic. Qed.
+Print Assumptions C05_save_region_no_panic.
+
 (* ---- non-vacuity ---- *)
 Example ex_c05_input_ok : bytes_ok ex_img = true /\ dec_ok ex_dec.
 Proof. split; [exact ex_img_ok|exact ex_dec_ok]. Qed.
@@ -65,3 +94,7 @@ Proof. split; [exact ex_img_ok|exact ex_dec_ok]. Qed.
 Example ex_c05_depth : parse_region ex_dec ex_u2s ex_nvar 5 ex_img = Fuel /\
   exists elems, parse_region ex_dec ex_u2s ex_nvar 6 ex_img = Ok (elems, 255).
 Proof. split; [exact ex_too_shallow|]. destruct ex_parses as (e & H & _). exists e; exact H. Qed.
+
+(* the example tree has children everywhere, so every rebuilding branch of the assembler runs *)
+Example ex_c05_save : is_ok (save_region ex_dec ex_enc ex_u2s ex_s2u ex_nvar 6 ex_img) = true.
+Proof. vm_compute. reflexivity. Qed.
